@@ -50,6 +50,18 @@ def classes(fresh=False):
             x: float
 
         @dataclass
+        class CO(CSVRecord):
+            # annotations given as strings (as under `from __future__ import annotations`); the class says itself how the
+            # columns are converted, through the public classmethod meant for it
+            i: "int"
+            x: "float"
+            s: "str"
+
+            @classmethod
+            def field_types(cls):
+                return [int, float, str]
+
+        @dataclass
         class J(JsonRecord):
             a: Any
             b: Any
@@ -72,7 +84,7 @@ def classes(fresh=False):
         class JD(J):
             d: Any = None
 
-        _CLS.update(C2=C2, T3=T3, C1=C1, CT=CT, TT=TT, J=J, C3D=C3D, T4D=T4D, CTD=CTD, JD=JD)
+        _CLS.update(C2=C2, T3=T3, C1=C1, CT=CT, TT=TT, CO=CO, J=J, C3D=C3D, T4D=T4D, CTD=CTD, JD=JD)
     return _CLS
 
 
@@ -671,7 +683,7 @@ class Prop(SeqProp):
             i = rng.choice([0, -1, 7, 10 ** 30, -2 ** 63, rng.randint(-10 ** 9, 10 ** 9)])
             x = gen_float(rng)
             s = gen_str(rng)
-            recs = [cl["CT"](i, x, s), cl["TT"](s, i, x), cl["CTD"](i, x, s, gen_str(rng))]
+            recs = [cl["CT"](i, x, s), cl["TT"](s, i, x), cl["CTD"](i, x, s, gen_str(rng)), cl["CO"](i, x, s)]
             rng.shuffle(recs)
             for rec in recs:
                 line = rec.save()
